@@ -7,7 +7,7 @@ from ..sched import replay_case, run_case
 from ..spaces import all_res, shard_iter
 
 ID = "C04"
-BUDGET = {"quick": 100, "thorough": 1800}
+BUDGET = {"quick": 100, "thorough": 900}
 MONITORS = [mon_c04]
 
 
@@ -89,8 +89,18 @@ def validation_case(acc, c):
             acc.violation(V("max_concurrency_refused", f"@dag(max_concurrency={good!r}) was refused: {e!r}", value=repr(good)), c)
 
 
+def all_cases(tier):
+    import itertools
+
+    from ..spaces import cross_families, foreign_quick_cases
+    its = [cases(tier), cross_families(tier)]
+    if tier != "quick":
+        its.append(foreign_quick_cases("c04"))
+    return itertools.chain(*its)
+
+
 def run_shard(tier, k, n, acc):
-    for c in shard_iter(cases(tier), k, n, acc):
+    for c in shard_iter(all_cases(tier), k, n, acc):
         if c.get("special"):
             validation_case(acc, c)
         else:
